@@ -36,3 +36,113 @@ def eager_inputs_aligned(text):
             if ast.dump(e) != ast.dump(inputs[r]):
                 bad.append((r, ast.unparse(inputs[r]), ast.unparse(e)))
     return bad
+
+
+# ----------------------------------------------------------------------------
+# C11: explicit shapes and leader-follower payload order
+# ----------------------------------------------------------------------------
+
+def _kw(call, name):
+    for k in call.keywords:
+        if k.arg == name:
+            return k.value
+    return None
+
+
+def tensor_constructors(text):
+    """-> list of (target variable, tensor name, rank_ids list, shape list of source strings or None) for every
+    `X = Tensor(rank_ids=[...], name="N"[, shape=[...]])` of the program."""
+    out = []
+    for node in ast.walk(ast.parse(text)):
+        if isinstance(node, ast.Assign) and isinstance(node.value, ast.Call) and isinstance(node.value.func, ast.Name) \
+                and node.value.func.id == "Tensor" and len(node.targets) == 1 and isinstance(node.targets[0], ast.Name):
+            ids, name, shape = _kw(node.value, "rank_ids"), _kw(node.value, "name"), _kw(node.value, "shape")
+            if not isinstance(ids, ast.List) or not isinstance(name, ast.Constant):
+                continue
+            out.append((node.targets[0].id, name.value, [e.value if isinstance(e, ast.Constant) else ast.unparse(e) for e in ids.elts],
+                        None if shape is None else ([ast.unparse(e) for e in shape.elts] if isinstance(shape, ast.List) else ast.unparse(shape))))
+    return out
+
+
+def root_of(rank_id, declared, partitioned):
+    """The declared rank a rank id of the loop nest belongs to: itself when declared, else <R><level> of a partitioned
+    declared rank R (decided from the specification, not from the compiler's partitioning IR)."""
+    if rank_id in declared:
+        return rank_id
+    stem = rank_id.rstrip("0123456789")
+    if stem != rank_id and stem in declared and stem in partitioned:
+        return stem
+    return None
+
+
+def shape_problems(text, decl, partitioned_by_out, outs, require_shape):
+    """An explicit shape must give, position by position, the extent of the declared rank each rank id belongs to
+    (shape[i] is the extent of rank_ids[i]: a partition level has the extent of its root rank).
+    decl: tensor -> declared ranks; partitioned_by_out: output -> set of partitioned declared ranks;
+    require_shape: outputs must carry an explicit shape (metrics mode).
+    -> list of dict(tensor, rank_ids, shape, want, kind)."""
+    bad = []
+    for var, name, ids, shape in tensor_constructors(text):
+        if name not in decl:
+            continue
+        if shape is None:
+            if require_shape and name in outs and ids:
+                bad.append({"kind": "shape-missing", "tensor": name, "rank_ids": ids, "shape": None, "want": None})
+            continue
+        part = partitioned_by_out.get(name, set())
+        want = [root_of(r, decl[name], part) for r in ids]
+        if not isinstance(shape, list) or shape != want:
+            bad.append({"kind": "shape-misaligned", "tensor": name, "rank_ids": ids, "shape": shape, "want": want})
+    return bad
+
+
+def _names(node):
+    """Names of a (nested) tuple pattern / of the operand expressions, left to right."""
+    if isinstance(node, ast.Name):
+        return [node.id]
+    if isinstance(node, (ast.Tuple, ast.List)):
+        return [n for e in node.elts for n in _names(e)]
+    return []
+
+
+def lf_payload_problems(text):
+    """The runtime hands the payloads of Fiber.intersection(f1, ..., fn, style="leader-follower") over in ARGUMENT
+    order, so the loop's payload pattern must name the operands in the order of the arguments (operand <t>_<rank> and
+    payload <t>_<rank'> / <t>_val carry the tensor's name as their prefix).
+    -> list of (pattern names, argument names, source line)."""
+    bad = []
+    for node in ast.walk(ast.parse(text)):
+        if not isinstance(node, ast.For):
+            continue
+        it = node.iter
+        if isinstance(it, ast.Call) and isinstance(it.func, ast.Name) and it.func.id == "enumerate" and it.args:
+            it = it.args[0]
+        out_pref = None
+        if isinstance(it, ast.BinOp) and isinstance(it.op, ast.LShift):
+            out_pref = _names(it.left)
+            it = it.right
+        if not (isinstance(it, ast.Call) and isinstance(it.func, ast.Attribute) and it.func.attr == "intersection"
+                and isinstance(it.func.value, ast.Name) and it.func.value.id == "Fiber"):
+            continue
+        args = []
+        for a in it.args:
+            # operand: a fiber variable, possibly wrapped in method calls (project ...)
+            while isinstance(a, ast.Call) and isinstance(a.func, ast.Attribute):
+                a = a.func.value
+            args.append(a.id.split("_")[0] if isinstance(a, ast.Name) else "?")
+        tgt = node.target
+        if isinstance(tgt, ast.Tuple) and len(tgt.elts) == 2 and isinstance(tgt.elts[0], ast.Name) and tgt.elts[0].id.endswith("_pos"):
+            tgt = tgt.elts[1]
+        if not (isinstance(tgt, ast.Tuple) and len(tgt.elts) == 2):
+            bad.append(([], args, ast.unparse(node).split("\n")[0]))
+            continue
+        pay = tgt.elts[1]
+        if out_pref is not None:
+            if not (isinstance(pay, ast.Tuple) and len(pay.elts) == 2):
+                bad.append(([], args, ast.unparse(node).split("\n")[0]))
+                continue
+            pay = pay.elts[1]
+        names = [n.split("_")[0] for n in _names(pay)]
+        if names != args:
+            bad.append((names, args, ast.unparse(node).split("\n")[0]))
+    return bad
